@@ -158,6 +158,71 @@ func TestVerifStorageAppend(t *testing.T) {
 					res.Fail(b.ID, si, "Append", via+" old="+vsaShow(s.Pre.Present, old)+" item="+vHex(item), vHex(exp), vHex(got), sig+fc, prefix)
 				}
 			}
+			// an append writes the NEW value of this view and nothing else: the value it started from, still held by an enclosing
+			// transaction layer, by the state the transaction was opened on, or by the trie a snapshot was taken of, keeps its
+			// bytes; after a rollback the next append starts from them again
+			if s.Pre.Present {
+				for _, via := range []string{"rolled-back-over-trie", "rolled-back-over-layer", "snapshot"} {
+					base := inmemory_trie.NewEmptyTrie()
+					var seen, again, other []byte
+					var callErr error
+					pm := vTry(func() {
+						switch via {
+						case "rolled-back-over-trie":
+							ts := storage.NewTrieState(base)
+							_ = ts.Put(key, append([]byte{}, old...))
+							ts.StartTransaction()
+							callErr = storageAppend(ts, key, append([]byte{}, item...))
+							seen = append([]byte{}, ts.Get(key)...)
+							ts.RollbackTransaction()
+							other = append([]byte{}, ts.Get(key)...)
+							if err := storageAppend(ts, key, append([]byte{}, item...)); err != nil && callErr == nil {
+								callErr = err
+							}
+							again = ts.Get(key)
+						case "rolled-back-over-layer":
+							ts := storage.NewTrieState(base)
+							ts.StartTransaction()
+							_ = ts.Put(key, append([]byte{}, old...))
+							ts.StartTransaction()
+							callErr = storageAppend(ts, key, append([]byte{}, item...))
+							seen = append([]byte{}, ts.Get(key)...)
+							ts.RollbackTransaction()
+							other = append([]byte{}, ts.Get(key)...)
+							if err := storageAppend(ts, key, append([]byte{}, item...)); err != nil && callErr == nil {
+								callErr = err
+							}
+							again = ts.Get(key)
+							ts.CommitTransaction()
+						case "snapshot":
+							_ = base.Put(key, append([]byte{}, old...))
+							ts := storage.NewTrieState(base.Snapshot())
+							callErr = storageAppend(ts, key, append([]byte{}, item...))
+							seen = append([]byte{}, ts.Get(key)...)
+							other = append([]byte{}, base.Get(key)...)
+							ts2 := storage.NewTrieState(base.Snapshot())
+							if err := storageAppend(ts2, key, append([]byte{}, item...)); err != nil && callErr == nil {
+								callErr = err
+							}
+							again = ts2.Get(key)
+						}
+					})
+					res.Cmp()
+					sig := "C09/append/" + class + "/"
+					switch {
+					case pm != "":
+						res.Fail(b.ID, si, "Append", via, vHex(exp), pm, sig+"panic", prefix)
+					case callErr != nil:
+						res.Fail(b.ID, si, "Append", via, vHex(exp), "error: "+callErr.Error(), sig+"error", prefix)
+					case !bytes.Equal(seen, exp):
+						res.Fail(b.ID, si, "Append", via+" old="+vsaShow(true, old)+" item="+vHex(item), vHex(exp), vHex(seen), sig+"wrong-bytes", prefix)
+					case !bytes.Equal(other, old):
+						res.Fail(b.ID, si, "Append", via+": the value the append started from, read through the other view", vHex(old), vHex(other), sig+"other-view-changed", prefix)
+					case !bytes.Equal(again, exp):
+						res.Fail(b.ID, si, "Append", via+": the same append from the same starting value again", vHex(exp), vHex(again), sig+"other-view-changed", prefix)
+					}
+				}
+			}
 		}
 	}
 }
